@@ -171,7 +171,7 @@ def run(ctx):
 
     # ---------------------------------------------------------------- unclustered sweep
     covers = cover_cfgs(rng)
-    n_files = 40 if quick else 420
+    n_files = 80 if quick else 2400
     small_depths = list(range(0, 13))
     depth_pool = list(range(0, 61))
     dens_pool = [("binomial", None)] + [("beta-binomial", p) for p in PRECISIONS]
@@ -259,7 +259,7 @@ def run(ctx):
                     {"cfg": cfgs[si], "density": dens, "precision": prec, "grid_size": G, "grid_index": i, "ref": n - x, "alt": x, "impl": il, "model": ml},
                 )
         # (iii) small depths: Coq model
-        if n <= 12 and G <= 7 and len(coq_items) < (150 if quick else 1500):
+        if n <= 12 and G <= 7 and len(coq_items) < (200 if quick else 3000):
             for _ in range(4):
                 si = rng.randrange(len(cfgs))
                 i = rng.randrange(G)
@@ -286,7 +286,7 @@ def run(ctx):
             coq_meta.append({"geno": (M, m, normal)})
 
     # ---------------------------------------------------------------- clustered files
-    n_cl = 10 if quick else 80
+    n_cl = 20 if quick else 400
     for k in range(n_cl):
         nsamp = rng.choice([1, 2, 3])
         nmut = rng.randint(2, 7)
@@ -313,7 +313,7 @@ def run(ctx):
         glob = rng.choice(["0.0001", "0.1", "0.5", "0"])
         col = None
         if k % 3 == 1:
-            col = {c: rng.choice(["0", "0.2", "0.01"]) for c in cl_ids}
+            col = {c: rng.choice(["0.0", "0.2", "0.01"]) for c in cl_ids}  # decimals: an all-integer column is int64 and pandas 3 refuses the float default
         cpath = os.path.join(tmp, "c%04d_clusters.tsv" % k)
         T.write_clusters(cpath, assign, outlier_probs=col, per_sample=["S%d" % i for i in range(nsamp)] if k % 4 == 3 else None, order=rng.sample(muts, len(muts)))
         kw = {"density": dens, "grid_size": G, "outlier_prob": float(glob)}
@@ -341,7 +341,7 @@ def run(ctx):
             want_o = (0.0, 0.0) if p == 0 else (math.log(p) * size, math.log1p(-p) * size)
             if abs(d.outlier_prob - want_o[0]) > 1e-9 * max(1, abs(want_o[0])) or abs(d.outlier_prob_not - want_o[1]) > 1e-9 * max(1, abs(want_o[1])):
                 ctx.fail("C05:compute_outlier_prob:cluster:all_members_loaded", "outlier terms (%.12g, %.12g) but size*log p, size*log(1-p) = (%.12g, %.12g)" % (d.outlier_prob, d.outlier_prob_not, want_o[0], want_o[1]), {"rows": rows, "assign": assign, "cluster": cid, "global": glob, "column": col})
-            if len(coq_items) < (260 if quick else 2600):
+            if len(coq_items) < (400 if quick else 6000):
                 coq_items.append("chk_outlier %s %s %d %s %s" % (T.coq_q(glob), "None" if col is None else "(Some %s)" % T.coq_q(col[cid]), size, T.coq_Q(Fraction(math.exp(d.outlier_prob))), T.coq_Q(Fraction(math.exp(d.outlier_prob_not)))))
                 coq_meta.append({"outlier": (glob, col, size)})
                 if small:
